@@ -24,7 +24,7 @@ LEVEL_TEXT = ('Proof + end-to-end oracle: Lean theorem C06_print_parse — every
 LEVEL_NOTE = 'Trusted: Lean kernel; extractor; correspondence; e2e read-back on generated units for the converter invariant (KF-C06-1 excluded by its predicate).'
 TECHNIQUE = 'Lean 4 proof (parse ∘ print = id on well-formed units; no newline in stored values) + correspondence + real write/read-back oracle'
 
-NASTY = ['a\\nb', 'x\\x0ay', '[Service]', 'ExecStart=/bin/evil', '#c', ';c', 'a=b', 'q"r', "it's", 'a\\\\b', 'é\\tü', 'a\\x5bb\\x5d', '%h/[x]=1;#', '\\x0a[Install]\\x0aWantedBy=evil.target',
+NASTY = ['é\\nForged=1', 'Grüße \\n[Service]', '日本\\x0aK=v', 'a\\nb', 'x\\x0ay', '[Service]', 'ExecStart=/bin/evil', '#c', ';c', 'a=b', 'q"r', "it's", 'a\\\\b', 'é\\tü', 'a\\x5bb\\x5d', '%h/[x]=1;#', '\\x0a[Install]\\x0aWantedBy=evil.target',
          'trail\\\\', '"a b" c', "'x y'", 'k=\\x0aForged=1', '\\n\\nExecStartPre=/bin/false', 'a\\x0db', '\\u2028x', 'x\\s']
 KEYS = {'container': ['ContainerName', 'Exec', 'Environment', 'Label', 'Annotation', 'HostName', 'PodmanArgs', 'Volume', 'Mount', 'User', 'WorkingDir', 'Entrypoint',
                       'SecurityLabelType', 'LogOpt', 'AddDevice', 'Secret', 'HealthCmd', 'Timezone', 'EnvironmentFile', 'Sysctl', 'GlobalArgs', 'ServiceName'],
@@ -164,6 +164,8 @@ def oracle(ctx):
         units.append(('kf1.container', ex['input']))
     # 1. stored strings never contain a newline (real quote_value / quote_words)
     strs = [gen.rs(rnd, 8, gen.WIDE) for _ in range(2000)] + ['\n', 'a\nb', '\r\n', '\x0b', '\x0c', '\x85', ' ']
+    # (characters of every UTF-8 width before the first one that needs escaping, a line feed right after it)
+    strs += [pre + mid + '\n' + post for pre in ('é', 'Grüße', '日本', '𝄞', 'aé', 'é𝄞日') for mid in ('', ' ', '"', '\\') for post in ('', 'K=v', '[S]')]
     for s_, a in zip(strs, ctx.impl(['quote_value\t' + hx(s_) for s_ in strs])):
         res.oracle_evals += 1
         if not a.startswith('ok x') or '\n' in unhx(a[3:]):
